@@ -501,8 +501,8 @@ Templates(fam) == CASE fam = "memoT" -> MemoTemplates [] fam = "cfgT" -> CfgTemp
                     \* byte inputs have no text::newline; the radix family looks at int / digits only
                     [] fam = "txtb" -> {g \in TxtTemplates \cup TxtCTemplates : ~HasOp(g, {"newline"}) /\ g \notin {TUKw(<<"E", "a">>), <<"then", TUKw(<<"E", "a">>), RestCap>>}}
                     [] fam = "txtr" -> {<<"then", tp, RestCap>> : tp \in {TDigits(r) : r \in {"2", "8", "10", "16", "36"}} \cup {TInt(r) : r \in {"2", "8", "10", "16", "36"}}} [] fam = "drpT" -> DrpTemplates [] fam = "rcvT" -> RcvTemplates [] fam = "lblT" -> LblTemplates
-                    [] fam = "pratt" -> PrattTemplates [] fam = "prattP" -> PrattPTemplates [] fam = "prattH" -> PrattHTemplates [] fam = "prattM" -> PrattMTemplates [] fam = "prattRec" -> PrattRTemplates [] fam = "rec" -> RecTemplates [] fam = "lrec" -> LRecTemplates [] fam = "repT" -> RepTemplates
-TemplateFams == {"exT", "exL", "prattH", "progT", "cfgT", "nstT", "rec", "lrec", "repT", "pratt", "prattP", "prattM", "prattRec", "memoT", "rcvT", "lblT", "drpT", "txt", "txtc", "txtb", "txtr", "gapT", "gapTi", "rcvN", "stat", "rcvE", "extT", "slcT"}
+                    [] fam = "pratt" -> PrattTemplates [] fam = "prattP" -> PrattPTemplates [] fam = "prattH" -> PrattHTemplates [] fam = "iiT" -> IIShapes \cup {<<"then", sh, RestCap>> : sh \in IIShapes} \cup RCfgPartial \cup {<<"then", sh, RestCap>> : sh \in RCfgPartial} [] fam = "prattM" -> PrattMTemplates [] fam = "prattRec" -> PrattRTemplates [] fam = "rec" -> RecTemplates [] fam = "lrec" -> LRecTemplates [] fam = "repT" -> RepTemplates
+TemplateFams == {"exT", "exL", "prattH", "iiT", "progT", "cfgT", "nstT", "rec", "lrec", "repT", "pratt", "prattP", "prattM", "prattRec", "memoT", "rcvT", "lblT", "drpT", "txt", "txtc", "txtb", "txtr", "gapT", "gapTi", "rcvN", "stat", "rcvE", "extT", "slcT"}
 
 (* Instrumentation (C01, C18): every node of a grammar is wrapped in probe(enter).ignore_then(node).then_ignore(   *)
 (* probe(exit)); a probe consumes nothing, never fails and logs (id, cursor, inspector state, context), so the   *)
